@@ -459,13 +459,18 @@ do_ctr(char * l)
 	const char * p;
 	int pattern = 0;
 
-	if (sscanf(l, "ctr %127s %llu %65535s %7s %524287s", khex, &nonce, cutss, inpl, data) != 5) return;
+	int ain = 0, aout = 0;		/* optional: offsets of the input / output buffers from a 16-byte boundary */
+	uint8_t * in0, * o0;
+
+	if (sscanf(l, "ctr %127s %llu %65535s %7s %524287s %d %d", khex, &nonce, cutss, inpl, data, &ain, &aout) < 5) return;
+	ain &= 15; aout &= 15;
 	klen = unhex(khex, key, 64);
 	if (strncmp(data, "pattern:", 8) == 0) { pattern = 1; len = (size_t)strtoull(data + 8, NULL, 10); }
 	else len = unhex(data, msg, sizeof(msg));
-	in = malloc(len + 1);
+	in0 = malloc(len + 17); in = in0 + ain;
 	for (i = 0; i < len; i++) in[i] = pattern ? pat(i) : msg[i];
-	o = (inpl[0] == '1') ? in : malloc(len + 1);
+	o0 = (inpl[0] == '1') ? in0 : malloc(len + 17);
+	o = (inpl[0] == '1') ? in : o0 + aout;
 	nsecrets = 0; tainted_frees = 0;
 	secret_add(key, klen, "raw AES key");
 	k = crypto_aes_key_expand(key, klen);
@@ -509,8 +514,8 @@ do_ctr(char * l)
 	}
 	vt_int("tainted", tainted_frees); if (tainted_frees) vt_str("what", tainted_what);
 	vt_end();
-	if (o != in) free(o);
-	free(in);
+	if (o0 != in0) free(o0);
+	free(in0);
 	nsecrets = 0;
 }
 
